@@ -120,6 +120,14 @@ def _check_num(value):
     return value
 
 
+def _carry(x, y, slope=1.0):
+    """The result y of a function of x keeps x's mark; `slope` bounds how
+    much the function magnifies an absolute error at x."""
+    if isinstance(x, Noisy) and isinstance(y, float):
+        return Noisy(y, max(abs(y), x.scale * abs(slope)))
+    return y
+
+
 BUILTINS = {}
 
 
@@ -163,24 +171,26 @@ def _sqrt(x):
         raise Undefined('sqrt of a float within rounding noise of 0')
     if x < 0:
         raise Undefined('sqrt of a negative number')
-    return math.sqrt(x)
+    y = math.sqrt(x)
+    return _carry(x, y, 0.5 / y if y else 1.0)
 
 
 @_builtin
 def _sin(x):
-    return math.sin(math.radians(x))
+    return _carry(x, math.sin(math.radians(x)), math.pi / 180)
 
 
 @_builtin
 def _cos(x):
-    return math.cos(math.radians(x))
+    return _carry(x, math.cos(math.radians(x)), math.pi / 180)
 
 
 @_builtin
 def _tan(x):
     if abs(math.cos(math.radians(x))) < 1e-6:
         raise Undefined('tan near a pole')
-    return math.tan(math.radians(x))
+    return _carry(x, math.tan(math.radians(x)),
+                  math.pi / 180 / math.cos(math.radians(x)) ** 2)
 
 
 @_builtin
@@ -189,7 +199,8 @@ def _asin(x):
         raise Undefined('asin at the edge of its domain')
     if not -1 <= x <= 1:
         raise Undefined('asin domain')
-    return math.degrees(math.asin(x))
+    return _carry(x, math.degrees(math.asin(x)),
+                  180 / math.pi / math.sqrt(max(1 - x * x, 1e-12)))
 
 
 @_builtin
@@ -198,12 +209,13 @@ def _acos(x):
         raise Undefined('acos at the edge of its domain')
     if not -1 <= x <= 1:
         raise Undefined('acos domain')
-    return math.degrees(math.acos(x))
+    return _carry(x, math.degrees(math.acos(x)),
+                  180 / math.pi / math.sqrt(max(1 - x * x, 1e-12)))
 
 
 @_builtin
 def _atan(x):
-    return math.degrees(math.atan(x))
+    return _carry(x, math.degrees(math.atan(x)), 180 / math.pi)
 
 
 @_builtin
